@@ -769,3 +769,4 @@ def accumulator_guards(prog, fi: FuncInfo):
         if rebinds:
             out.append((pname, n, kind, pname in mutated))
     return out
+
